@@ -62,7 +62,14 @@ func history(h *vh.H, ci int, r vh.R, full bool) {
 	V, C, E, R := types.ValidatorsCount, types.CoresCount, types.EpochLength, types.RotationPeriod
 	lambda := keys(1, V, nil, r)
 	kappa := keys(2, V, lambda, r)
-	tau := types.TimeSlot(E + R + r.IntN(E))
+	// every fourth history lives high up in the 32-bit slot range (an epoch-aligned offset near 2^16, 2^31 or just below 2^32): slot
+	// arithmetic narrowed to 16 or 31 bits, or signed, goes wrong only there
+	hiBase := 0
+	if r.IntN(4) == 0 {
+		hiBase = []int{(1 << 16) / E, (1<<16)/E - 1, (1 << 31) / E, (1<<31)/E - 1, (1<<32)/E - 60}[r.IntN(5)] * E
+		h.Inc("histories_high_in_the_slot_range")
+	}
+	tau := types.TimeSlot(hiBase + E + R + r.IntN(E))
 	pi := types.Statistics{ValsCurr: make(types.ValidatorsStatistics, V), ValsLast: make(types.ValidatorsStatistics, V)}
 	for i := range pi.ValsCurr { // a history that starts in the middle of an epoch
 		if r.IntN(3) == 0 {
